@@ -48,6 +48,23 @@ func init() {
 		sutils.MAX_BYTES_METRICS_BLOCK = uint64(r.Ints["bytes"])
 		return nil, nil
 	})
+	// c10.wallimits: lowers the two exported limits of the datapoint WAL: the number of buffered
+	// datapoints at which an ingest call appends a block itself (WAL_BLOCK_FLUSH_SIZE, 10000) and the
+	// encoded size above which the WAL of a block continues in a new file (MAX_WAL_FILE_SIZE_BYTES,
+	// 128 MB; rotateWAL). 0 = leave as it is. The flush size is only ever lowered: the buffers of the
+	// segments that exist are as long as the value at their creation.
+	sut.RegisterOp("c10.wallimits", func(r *sut.Req) (interface{}, error) {
+		if n := int(r.Ints["flush"]); n > 0 {
+			if n > sutils.WAL_BLOCK_FLUSH_SIZE {
+				return nil, fmt.Errorf("the WAL flush size can only be lowered (%d > %d)", n, sutils.WAL_BLOCK_FLUSH_SIZE)
+			}
+			sutils.WAL_BLOCK_FLUSH_SIZE = n
+		}
+		if n := r.Ints["maxbytes"]; n > 0 {
+			sutils.MAX_WAL_FILE_SIZE_BYTES = uint64(n)
+		}
+		return nil, nil
+	})
 	// c10.mnames: metric names known for the time range Start..End.
 	sut.RegisterOp("c10.mnames", func(r *sut.Req) (interface{}, error) {
 		names, err := query.GetAllMetricNamesOverTheTimeRange(&dtu.MetricsTimeRange{StartEpochSec: uint32(r.Start), EndEpochSec: uint32(r.End)}, r.Org)
